@@ -267,7 +267,7 @@ def h1(ctx: Ctx) -> None:
 
 
 
-@rule("C19.H2", "whether an order carries a price to round is decided by value (an order equal to a limit order is rounded like one)", "T13 lint over Market", floor=30)
+@rule("C19.H2", "whether an order carries a price to round is decided by value (an order equal to a limit order is rounded like one)", "T13 lint over Market", floor=1)
 def h2(ctx: Ctx) -> None:
     from .events import check_identity_comparisons
 
